@@ -76,6 +76,18 @@ def run(prog, rep):
         graph = [("param", p) for p, t in zip(f.param_names(), f.param_tys) if "SymbolicAsyncGraph" in t]
         nz = norm.Normalizer()
         ts, td = nz(ts), nz(td)
+
+        def success_value(t):
+            """The value on the paths that do not end in an error (errors of the dirty computation handed on by `?` / `map` are the
+            same errors in both siblings: C14 / C07 look at them)."""
+            def all_err(x):
+                if x[0] == "ite":
+                    return all_err(x[2]) and all_err(x[3])
+                return x[0] == "ctor" and str(x[1]).rsplit("::", 1)[-1] == "Err"
+            while t[0] == "ite" and (all_err(t[2]) or all_err(t[3])) and not (all_err(t[2]) and all_err(t[3])):
+                t = t[3] if all_err(t[2]) else t[2]
+            return t
+        ts, td = success_value(ts), success_value(td)
         found = []
 
         def unsanitise(t, top=True):
